@@ -89,6 +89,7 @@ fn show_elem(e: &TcpOptionElement) -> String {
 }
 
 fn show_err(e: &TcpOptionReadError) -> String {
+    crate::util::touch(e);
     use TcpOptionReadError::*;
     match e {
         UnexpectedEndOfSlice {
@@ -237,6 +238,7 @@ fn show_opts(o: &TcpOptions) -> String {
 }
 
 fn show_werr(e: &TcpOptionWriteError) -> String {
+    crate::util::touch(e);
     match e {
         TcpOptionWriteError::NotEnoughSpace(n) => format!("err(space={})", n),
     }
